@@ -28,10 +28,10 @@ CLAIMS = {
             "stubbed; every operand pair at widths {1,2,7,8,16} with the real multipliers; inv_ring on every value at "
             "{1,2,3,7,8} (Some(x) canonical with a*x = 1 mod 2^BITS exactly for odd a) and = None for every even "
             "value at {0,1,7,64,65,128,250}; on the unit-limb sub-domain (every limb of one operand 0 or 1, the other operand "
-            "FULL, either order), where the abstraction is exact: overflowing_mul/wrapping_mul at 128 and 192 bits and widening_mul "
+            "FULL, one harness per order), where the abstraction is exact: overflowing_mul/wrapping_mul at 128 and 192 bits (thorough also 256 bits, unit operand on the left) and widening_mul "
             "192x192 -> 384 (all rows of the generic addmul full).",
             "The three DoubleWord multiply bodies are decided in C15 (unstubbed, relative to Rust's `*`). Outside: "
-            "the generic addmul at LIMBS >= 4 (no verdict within 1500-1800 s on any domain tried), inv_ring's Some branch at 16 bits and above (five dependent 64-bit Newton "
+            "the generic addmul at LIMBS >= 4 apart from that one 256-bit unit-limb instance (no verdict within 1500-2400 s on any other domain tried), inv_ring's Some branch at 16 bits and above (five dependent 64-bit Newton "
             "steps: > 600 s), full-range 64-bit products without the abstraction."),
     "C03": ("5/C03",
             "All division forms (div_rem, / % /= %= in all shapes, wrapping_/checked_ forms, div_ceil, "
